@@ -89,13 +89,24 @@ func (srv *Server) ListenAndServe(address string) error {
 // server is gracefully closed.
 func (srv *Server) Serve(listener net.Listener) error {
 	// NOTE: closing the server waits until the accept loop has been stopped
-	// and this method is about to return.
-	srv.wg.Add(1)
+	// and this method is about to return. The accept loop and the listener
+	// watcher are registered while holding the lock: the registration either
+	// happens before a concurrent Close starts waiting or the server is known
+	// to be closing and nothing is registered at all.
+	srv.mu.RLock()
+	if srv.closing.Load() {
+		srv.mu.RUnlock()
+		_ = listener.Close()
+		return nil
+	}
+
+	srv.wg.Add(2)
+	srv.mu.RUnlock()
+
 	defer srv.wg.Done()
 	defer srv.logger.Info("closing server")
 
 	srv.logger.Info("serving incoming connections", slog.String("addr", listener.Addr().String()))
-	srv.wg.Add(1)
 
 	// NOTE: handle graceful shutdowns
 	go func() {
